@@ -47,7 +47,12 @@ class Stage:
 
 
 def _arr(vals, readonly):
+    """readonly: False (plain), True (read-only), "strided" (a non-contiguous view into a larger array)"""
     a = np.array(vals, dtype=np.float64)
+    if readonly == "strided":
+        big = np.full((2 * len(a) + 1,) + a.shape[1:], -7.25)
+        big[1::2] = a
+        return big[1::2]
     if readonly:
         a.flags.writeable = False
     return a
@@ -75,8 +80,12 @@ class DiffuseGeom(Stage):
         return self._make(self.gc)
 
     def rows(self, g, idxs, readonly=False):
-        U = _arr([self.ev[i] for i in idxs], readonly).T.copy()
-        if readonly:
+        U = np.array([self.ev[i] for i in idxs], dtype=np.float64).reshape(-1, 4).T.copy()
+        if readonly == "strided":
+            big = np.full((4, 2 * U.shape[1] + 1), 0.5)
+            big[:, 1::2] = U
+            U = big[:, 1::2]
+        elif readonly:
             U.flags.writeable = False
         c = U.tobytes()
         with np.errstate(all="ignore"):
@@ -104,8 +113,12 @@ class DiffuseGeomCall(DiffuseGeom):
     name = "RegionGeom.__call__(u)"
 
     def rows(self, g, idxs, readonly=False):
-        U = _arr([self.ev[i] for i in idxs], readonly).T.copy()
-        if readonly:
+        U = np.array([self.ev[i] for i in idxs], dtype=np.float64).reshape(-1, 4).T.copy()
+        if readonly == "strided":
+            big = np.full((4, 2 * U.shape[1] + 1), 0.5)
+            big[:, 1::2] = U
+            U = big[:, 1::2]
+        elif readonly:
             U.flags.writeable = False
         c = U.tobytes()
         with np.errstate(all="ignore"):
@@ -328,6 +341,7 @@ class EASStage(Stage):
 
 class RadioStage(Stage):
     name = "EASRadio.__call__"
+    accepts_empty = False  # (the unchanged tree raises IndexError on an empty batch; the pipeline never passes one)
 
     def __init__(self, variant=0):
         from nuspacesim.simulation.eas_radio.radio import EASRadio
@@ -562,16 +576,29 @@ def judge_stage(st, tier):
             h3 = history.canon(o2)
             if not (h1 == h2 == h3):
                 out.append(("repeat_leaves_state_unchanged", kind, batches, "object state hash changes between repeated identical calls"))
-    # read-only inputs: no write may even be attempted
-    for idxs in ([0], list(range(st.k))):
+    # read-only inputs: no write may even be attempted; non-contiguous views: same results, the surrounding memory and
+    # the view itself untouched
+    for mode, clause in ((True, "inputs_never_written"), ("strided", "strided_inputs")):
+        for idxs in ([0], list(range(st.k))):
+            try:
+                r, ok = st.rows(st.make(), idxs, readonly=mode)
+                if not ok:
+                    out.append(("inputs_unmodified", str(mode), [idxs], 0))
+                for pos, i in enumerate(idxs):
+                    if r[pos] != base[i]:
+                        out.append(("event_result_independent_of_context", str(mode), [idxs], (0, pos)))
+                        break
+            except Exception as ex:
+                out.append((clause, str(mode), [idxs], f"{type(ex).__name__}: {str(ex)[:80]}"))
+            n += 1
+    # the empty batch: no rows in, no rows out (stages that accept it on the unchanged tree)
+    if getattr(st, "accepts_empty", True):
         try:
-            r, ok = st.rows(st.make(), idxs, readonly=True)
-            for pos, i in enumerate(idxs):
-                if r[pos] != base[i]:
-                    out.append(("event_result_independent_of_context", "readonly", [idxs], (0, pos)))
-                    break
+            r, ok = st.rows(st.make(), [])
+            if len(r) != 0:
+                out.append(("empty_batch_gives_empty_result", "empty", [[]], len(r)))
         except Exception as ex:
-            out.append(("inputs_never_written", "readonly", [idxs], f"{type(ex).__name__}: {str(ex)[:80]}"))
+            out.append(("empty_batch_gives_empty_result", "empty", [[]], f"{type(ex).__name__}: {str(ex)[:80]}"))
         n += 1
     return out, n, len(states)
 
